@@ -85,6 +85,9 @@ func init() {
 		Gen: func(t *rapid.T, ctx *Ctx) interface{} {
 			return &EvCase{Events: gen.Document(t, c02Opts(ctx))}
 		},
+		Fixed: func(ctx *Ctx, report func(c interface{}, err error)) {
+			sweepEventCases(ctx, report, func(ci interface{}, ctx *Ctx) error { return checkCTERoundTrip(ci.(*EvCase), ctx) })
+		},
 		Check: func(ci interface{}, ctx *Ctx) error { return checkCTERoundTrip(ci.(*EvCase), ctx) },
 	})
 }
